@@ -200,12 +200,43 @@ func randPower(rng *rand.Rand) *big.Int {
 	}
 }
 
+// pickID draws a participant id: mostly small ones (so that tables of a pair overlap), sometimes
+// ids around the int32/int64 sign boundaries and the top of the uint64 range.
+func pickID(rng *rand.Rand, maxN int) gpbft.ActorID {
+	if rng.Intn(8) != 0 {
+		return gpbft.ActorID(1 + rng.Intn(3*maxN))
+	}
+	k := uint64(rng.Intn(3))
+	switch rng.Intn(6) {
+	case 0:
+		return 0
+	case 1:
+		return gpbft.ActorID(1<<31 - 1 + k)
+	case 2:
+		return gpbft.ActorID(1<<63 - 1 - k)
+	case 3:
+		return gpbft.ActorID(1<<63 + k)
+	case 4:
+		return gpbft.ActorID(^uint64(0) - k)
+	default:
+		return gpbft.ActorID(rng.Uint64())
+	}
+}
+
+// keyIdx: a key index that stays distinct per id also for ids near 2^64
+func keyIdx(id gpbft.ActorID) uint64 {
+	if uint64(id) < 1<<59 {
+		return uint64(id) * 16
+	}
+	return (uint64(id)>>5 | 1<<58) * 16
+}
+
 func randTable(rng *rand.Rand, maxN int, universe uint32, sig vsig.Scheme) table {
 	n := 1 + rng.Intn(maxN)
 	t := table{}
 	for len(t) < n {
-		id := gpbft.ActorID(1 + rng.Intn(3*maxN))
-		t[id] = ent{id, randPower(rng), string(sig.PubKey(universe, uint64(id)*16+uint64(rng.Intn(3))))}
+		id := pickID(rng, maxN)
+		t[id] = ent{id, randPower(rng), string(sig.PubKey(universe, keyIdx(id)+uint64(rng.Intn(3))))}
 	}
 	return t
 }
@@ -219,9 +250,9 @@ func evolve(rng *rand.Rand, a table, maxN int, universe uint32, sig vsig.Scheme)
 	for s := 0; s < steps; s++ {
 		switch rng.Intn(4) {
 		case 0: // add
-			id := gpbft.ActorID(1 + rng.Intn(3*maxN))
+			id := pickID(rng, maxN)
 			if _, ok := b[id]; !ok {
-				b[id] = ent{id, randPower(rng), string(sig.PubKey(universe, uint64(id)*16+uint64(rng.Intn(3))))}
+				b[id] = ent{id, randPower(rng), string(sig.PubKey(universe, keyIdx(id)+uint64(rng.Intn(3))))}
 			}
 		case 1: // remove (keep at least one)
 			if len(b) > 1 {
@@ -232,7 +263,7 @@ func evolve(rng *rand.Rand, a table, maxN int, universe uint32, sig vsig.Scheme)
 			}
 		case 2: // re-key
 			for id, e := range b {
-				e.key = string(sig.PubKey(universe, uint64(id)*16+3+uint64(rng.Intn(8))))
+				e.key = string(sig.PubKey(universe, keyIdx(id)+3+uint64(rng.Intn(8))))
 				b[id] = e
 				break
 			}
